@@ -193,6 +193,8 @@ class Wx:
         self.p = subprocess.Popen(cmd, cwd=self.proj, stdin=subprocess.DEVNULL, stdout=subprocess.DEVNULL, stderr=self.err, env=env, start_new_session=True)
         self.changes = []  # (t_before, t_after, n_files)
         self.seq = 0
+        self.noise_sig = None  # a signal watchexec is told to discard, sent next to every change (same debounce window)
+        self.noise_sent = 0
 
     def lines(self):
         return read_log(self.log)
@@ -210,6 +212,13 @@ class Wx:
 
     def change(self, nfiles=1):
         tb = mono()
+        if self.noise_sig and self.p.poll() is None:
+            # lands in the same batch as the change: the batch then holds a signal event and path events
+            try:
+                os.kill(self.p.pid, self.noise_sig)
+                self.noise_sent += 1
+            except OSError:
+                pass
         for _ in range(nfiles):
             self.seq += 1
             with open(os.path.join(self.proj, "f%d.txt" % (self.seq % 5)), "w") as f:
@@ -325,6 +334,11 @@ def c05_scenario(rep, rng, scratch, idx, force=None):
         # one of the two quit signals is mapped to something harmless: the other one must still quit watchexec
         mapped = rng.choice(["TERM", "INT"])
         flags += ["--map-signal", "%s:USR2" % mapped]
+    # a signal that watchexec is told to discard arrives together with every change (one scenario in four): the batch
+    # is then a mix of a signal event and path events, and must be acted on like the change alone
+    noise = force["noise"] if "noise" in force else (rng.random() < 0.25)
+    if noise:
+        flags += ["--map-signal", "USR1:"]
     postpone = template == "postpone" or rng.random() < 0.15
     if "postpone" in force:
         postpone = force["postpone"]
@@ -367,7 +381,9 @@ def c05_scenario(rep, rng, scratch, idx, force=None):
         child += ["--on-signal", "any:0"]
     name = "c05-%d" % idx
     wx = Wx(scratch, name, flags, child)
-    desc = {"mode": mode_name, "template": template, "child": child_kind, "stop_timeout_ms": stop_timeout, "debounce_ms": debounce,
+    if noise:
+        wx.noise_sig = signal.SIGUSR1
+    desc = {"noise": noise, "mode": mode_name, "template": template, "child": child_kind, "stop_timeout_ms": stop_timeout, "debounce_ms": debounce,
             "postpone": postpone, "delay_run_ms": delay, "stop_signal": stop_sig[0] if stop_sig else None, "run_ms": run_ms, "mapped_signal": mapped}
     V = []  # (sig, what)
     INC = []
@@ -1048,6 +1064,8 @@ def main():
                 desc["memcheck"] = True
             with lock:
                 rep.evaluations += 1
+            if getattr(wx, "noise_sent", 0):
+                rep.count("changes_accompanied_by_a_discarded_signal_in_the_same_window", wx.noise_sent)
             h = hashlib.sha1(json.dumps(desc, sort_keys=True).encode()).hexdigest()[:16]
             if desc.get("template") != "idle" or prop in ("C18", "C12", "C17"):
                 with lock:
